@@ -119,16 +119,17 @@ theorem C02_insert_conserves_objects (t : T) (obj : IObj) (hL : Lam t) (hs : sub
   refine ⟨fun e => by rw [e] at h; exact h, fun t' e => ?_, fun t' m e => ?_, fun t' e => ?_⟩ <;> rw [e] at h
   · exact h.2.2
   · exact h.2.2
-  · exact h.2
+  · exact h.2.2
 
 open Hw.Topo.Ins in
-/-- after an insertion or a merge the tree is laminar again (the cpuset clauses of C01 that concern inclusion and disjointness
+/-- after an insertion, a merge or a refused insertion (put-back) the tree is laminar again (the cpuset clauses of C01 that concern inclusion and disjointness
 are preserved by the routine), and the root keeps its set -/
 theorem C02_insert_preserves_laminar (t : T) (obj : IObj) (hL : Lam t) (hs : sub obj.key t.o.key) :
     (∀ t', ins obj t = .inserted t' → Lam t' ∧ t'.o.key = t.o.key) ∧
-    (∀ t' m, ins obj t = .merged t' m → Lam t' ∧ t'.o.key = t.o.key) := by
+    (∀ t' m, ins obj t = .merged t' m → Lam t' ∧ t'.o.key = t.o.key) ∧
+    (∀ t', ins obj t = .failed t' → Lam t' ∧ t'.o.key = t.o.key) := by
   have h := ins_good t obj hL hs
-  refine ⟨fun t' e => ?_, fun t' m e => ?_⟩ <;> rw [e] at h <;> exact ⟨h.1, h.2.1⟩
+  refine ⟨fun t' e => ?_, fun t' m e => ?_, fun t' e => ?_⟩ <;> rw [e] at h <;> exact ⟨h.1, h.2.1⟩
 
 open Hw.Topo.Ins in
 /-- the same through the public entry point `hwloc_topology_insert_group_object` (set clipping, cpuset from the nodeset,
